@@ -4,6 +4,7 @@ CHECK = dict(
     # ~10 box types x every family in one TU: inlining + variable tracking make the sanitizer build take minutes
     harness_flags=["-fno-inline", "-fno-var-tracking"],
     variants=[dict(name="asan", flavour="asan")],
+    floor={"asan:extreme_int_box_pairs": 20000, "asan:extreme_int_touching_pairs": 20000},
     assumptions=["lattice membership oracle in harness/c05_box.cpp (double arithmetic on integer / half-integer values is exact)",
                  "rcp / rcp_safe are accurate to 2^-20 relative (their documented contract, property C07); the ray margins are 4x that",
                  "xfmPoint rounds like three float multiply-adds: tolerance 8*FLT_EPSILON*(sum |l_ij||p_j| + |p_i|), also for double boxes "
